@@ -21,6 +21,7 @@ func main() {
 	tier := fs.String("tier", "quick", "")
 	seed := fs.Int64("seed", 1, "")
 	jq := fs.String("jqawk", "", "")
+	jqRace := fs.String("jqawk-race", "", "")
 	repo := fs.String("repo", "/repo", "")
 	scratch := fs.String("scratch", filepath.Join(verifRoot(), "build", "scratch"), "")
 	from := fs.Int("from", 0, "")
@@ -70,7 +71,7 @@ func main() {
 			*seed = n
 		}
 	}
-	env := &Env{Prop: p, Tier: *tier, Seed: *seed, Jqawk: *jq, Repo: *repo, Scratch: *scratch, Known: loadFindings(), Verbose: *verbose}
+	env := &Env{Prop: p, Tier: *tier, Seed: *seed, Jqawk: *jq, JqawkRace: *jqRace, Repo: *repo, Scratch: *scratch, Known: loadFindings(), Verbose: *verbose}
 	switch mode {
 	case "run":
 		os.Exit(orchestrate(env, self, *only))
